@@ -14,26 +14,35 @@ func init() {
 	vRegister("vC39_gcounter", vC39_gcounter)
 	vRegister("vC39_pncounter", vC39_pncounter)
 	vRegister("vC39_mvregister", vC39_mvregister)
+	vRegister("vC39_orset", vC39_orset)
+	vRegister("vC39_orset_fullstate", vC39_orset_fullstate)
+	vRegister("vC39_ormap", vC39_ormap)
+	vRegister("vC39_ormap_sets", vC39_ormap_sets)
 }
 
-const vC39_nd = 4 // deltas: 2 updates at each of the 2 originators
+const vC39_nd = 4 // deltas: 2 updates at originator a (d0,d1), 1 or 2 at originator b (d2,d3)
 
-// delivery schedule: 5 deliveries, each of an arbitrary delta; every delta is delivered at least once, so every order of
-// the 4 deltas with one duplicate (and every shorter order when some update published nothing) is covered
+// delivery schedule: nd+1 deliveries, each of an arbitrary delta; every delta is delivered at least once, so every order of
+// the nd deltas with one duplicate (and every shorter order when some update published nothing) is covered
 const vC39_deliveries = 5
 
-func vC39_schedule() [vC39_deliveries]int {
+// vCase("bUpdates") = 1: three deltas, four deliveries; = 2: four deltas, five deliveries
+func vC39_nDeltas() int { return 2 + vCase("bUpdates") }
+
+func vC39_schedule(nd int) [vC39_deliveries]int {
 	var sch [vC39_deliveries]int
 	var seen [vC39_nd]bool
-	for i := 0; i < vC39_deliveries; i++ {
-		sch[i] = vChoose("deliver", vC39_nd)
-		for j := 0; j < vC39_nd; j++ {
+	for i := 0; i < nd+1; i++ {
+		sch[i] = vChoose("deliver", nd)
+		for j := 0; j < nd; j++ {
 			if sch[i] == j {
 				seen[j] = true
 			}
 		}
 	}
-	vAssume(seen[0] && seen[1] && seen[2] && seen[3])
+	for j := 0; j < nd; j++ {
+		vAssume(seen[j])
+	}
 	return sch
 }
 
@@ -53,6 +62,18 @@ func vC39_gcCopy(g *GCounter) *GCounter {
 	var c [7]*GCounter
 	c[0] = g
 	return vC38_gcPick(0, 1, c)
+}
+
+// cond ? cur.Merge(d) : cur, copied by value into a fresh object
+func vC39_gcMergeIf(cond bool, cur, d *GCounter) *GCounter {
+	var c [7]*GCounter
+	c[0] = cur
+	c[1] = cur.Merge(d).(*GCounter)
+	k := 0
+	if cond {
+		k = 1
+	}
+	return vC38_gcPick(k, 2, c)
 }
 
 // one update at an originator: zero, one or two increments (a Modify function may do several), then delta extraction
@@ -77,26 +98,26 @@ func vC39_gcounter() {
 	a, d[0], pub[0] = vC39_gcUpdate(a, "a")
 	b, d[2], pub[2] = vC39_gcUpdate(b, "b")
 	// the originators may see each other's first delta before their second update
-	if vNondetBool("aSeesB") && pub[2] {
-		a = vC39_gcCopy(a.Merge(d[2]).(*GCounter))
-	}
-	if vNondetBool("bSeesA") && pub[0] {
-		b = vC39_gcCopy(b.Merge(d[0]).(*GCounter))
-	}
+	a = vC39_gcMergeIf(vNondetBool("aSeesB") && pub[2], a, d[2])
+	b = vC39_gcMergeIf(vNondetBool("bSeesA") && pub[0], b, d[0])
+	nd, part := vC39_nDeltas(), vCase("part")
 	a, d[1], pub[1] = vC39_gcUpdate(a, "a")
-	b, d[3], pub[3] = vC39_gcUpdate(b, "b")
+	d[3] = vC39_emptyGC
+	if nd == 4 {
+		b, d[3], pub[3] = vC39_gcUpdate(b, "b")
+	}
 	full := vC38_gcSnap(a.Merge(b).(*GCounter))
 	// a third replica receives the published deltas in any order, one of them possibly twice
-	sch := vC39_schedule()
+	sch := vC39_schedule(nd)
 	cur, present := vC39_emptyGC, false
-	for i := 0; i < vC39_deliveries; i++ {
+	for i := 0; i < nd+1 && part == 0; i++ {
 		var c [7]*GCounter
 		var p [7]bool
-		for j := 0; j < vC39_nd; j++ {
+		for j := 0; j < nd; j++ {
 			c[j], p[j] = d[j], pub[j]
 		}
-		dl := vC38_gcPick(sch[i], vC39_nd, c)
-		if vC38_pickBool(sch[i], vC39_nd, p) {
+		dl := vC38_gcPick(sch[i], nd, c)
+		if vC38_pickBool(sch[i], nd, p) {
 			var n [7]*GCounter
 			n[0] = dl // key absent: the delta itself becomes the stored value
 			n[1] = cur.Merge(dl).(*GCounter)
@@ -107,20 +128,20 @@ func vC39_gcounter() {
 			cur, present = vC38_gcPick(k, 2, n), true
 		}
 	}
-	vAssert(vC38_gcSnap(cur) == full, "a replica that applied every delta (any order, duplicates) equals the merge of the originators' full states")
+	if part == 0 {
+		vAssert(vC38_gcSnap(cur) == full, "a replica that applied every delta (any order, duplicates) equals the merge of the originators' full states")
+	}
 	// each originator applies the other's deltas in order
 	a2, b2 := a, b
-	for j := 0; j < 2; j++ {
-		if pub[2+j] {
-			a2 = vC39_gcCopy(a2.Merge(d[2+j]).(*GCounter))
-		}
-		if pub[j] {
-			b2 = vC39_gcCopy(b2.Merge(d[j]).(*GCounter))
-		}
+	for j := 0; j < 2 && part == 1; j++ {
+		a2 = vC39_gcMergeIf(pub[2+j], a2, d[2+j])
+		b2 = vC39_gcMergeIf(pub[j], b2, d[j])
 	}
-	vAssert(vC38_gcSnap(a2) == full && vC38_gcSnap(b2) == full, "the originators converge to the same state after exchanging deltas")
-	if pub[0] && pub[1] && pub[2] && pub[3] && sch[0] == 3 && sch[1] == 1 && sch[2] == 1 {
-		vCover("four-deltas-reordered-and-duplicated")
+	if part == 1 {
+		vAssert(vC38_gcSnap(a2) == full && vC38_gcSnap(b2) == full, "the originators converge to the same state after exchanging deltas")
+	}
+	if pub[0] && pub[1] && pub[2] && sch[0] == 2 && sch[1] == 1 && sch[2] == 1 {
+		vCover("deltas-reordered-and-duplicated")
 	}
 	if !pub[1] {
 		vCover("update-that-publishes-nothing")
@@ -135,6 +156,18 @@ func vC39_pnCopy(p *PNCounter) *PNCounter {
 }
 
 var vC39_emptyPN = NewPNCounter()
+
+func vC39_pnMergeIf(cond bool, cur, d *PNCounter) *PNCounter {
+	m := cur.Merge(d).(*PNCounter)
+	var ci, cd [7]*GCounter
+	ci[0], cd[0] = cur.increments, cur.decrements
+	ci[1], cd[1] = m.increments, m.decrements
+	k := 0
+	if cond {
+		k = 1
+	}
+	return &PNCounter{increments: vC38_gcPick(k, 2, ci), decrements: vC38_gcPick(k, 2, cd)}
+}
 
 func vC39_pnUpdate(cur *PNCounter, node string) (*PNCounter, *PNCounter, bool) {
 	n1, n2 := vNondetUint64("amount"), vNondetUint64("amount")
@@ -166,25 +199,25 @@ func vC39_pncounter() {
 	var pub [vC39_nd]bool
 	a, d[0], pub[0] = vC39_pnUpdate(a, "a")
 	b, d[2], pub[2] = vC39_pnUpdate(b, "b")
-	if vNondetBool("aSeesB") && pub[2] {
-		a = vC39_pnCopy(a.Merge(d[2]).(*PNCounter))
-	}
-	if vNondetBool("bSeesA") && pub[0] {
-		b = vC39_pnCopy(b.Merge(d[0]).(*PNCounter))
-	}
+	a = vC39_pnMergeIf(vNondetBool("aSeesB") && pub[2], a, d[2])
+	b = vC39_pnMergeIf(vNondetBool("bSeesA") && pub[0], b, d[0])
+	nd, part := vC39_nDeltas(), vCase("part")
 	a, d[1], pub[1] = vC39_pnUpdate(a, "a")
-	b, d[3], pub[3] = vC39_pnUpdate(b, "b")
+	d[3] = vC39_emptyPN
+	if nd == 4 {
+		b, d[3], pub[3] = vC39_pnUpdate(b, "b")
+	}
 	full := vC38_pnSnap(a.Merge(b).(*PNCounter))
-	sch := vC39_schedule()
+	sch := vC39_schedule(nd)
 	cur, present := vC39_emptyPN, false
-	for i := 0; i < vC39_deliveries; i++ {
+	for i := 0; i < nd+1 && part == 0; i++ {
 		var ci, cd [7]*GCounter
 		var p [7]bool
-		for j := 0; j < vC39_nd; j++ {
+		for j := 0; j < nd; j++ {
 			ci[j], cd[j], p[j] = d[j].increments, d[j].decrements, pub[j]
 		}
-		dl := &PNCounter{increments: vC38_gcPick(sch[i], vC39_nd, ci), decrements: vC38_gcPick(sch[i], vC39_nd, cd)}
-		if vC38_pickBool(sch[i], vC39_nd, p) {
+		dl := &PNCounter{increments: vC38_gcPick(sch[i], nd, ci), decrements: vC38_gcPick(sch[i], nd, cd)}
+		if vC38_pickBool(sch[i], nd, p) {
 			m := cur.Merge(dl).(*PNCounter)
 			k := 0
 			if present {
@@ -196,18 +229,18 @@ func vC39_pncounter() {
 			cur, present = &PNCounter{increments: vC38_gcPick(k, 2, ni), decrements: vC38_gcPick(k, 2, nd)}, true
 		}
 	}
-	vAssert(vC38_pnSnap(cur) == full, "a replica that applied every delta (any order, duplicates) equals the merge of the originators' full states")
-	a2, b2 := a, b
-	for j := 0; j < 2; j++ {
-		if pub[2+j] {
-			a2 = vC39_pnCopy(a2.Merge(d[2+j]).(*PNCounter))
-		}
-		if pub[j] {
-			b2 = vC39_pnCopy(b2.Merge(d[j]).(*PNCounter))
-		}
+	if part == 0 {
+		vAssert(vC38_pnSnap(cur) == full, "a replica that applied every delta (any order, duplicates) equals the merge of the originators' full states")
 	}
-	vAssert(vC38_pnSnap(a2) == full && vC38_pnSnap(b2) == full, "the originators converge to the same state after exchanging deltas")
-	if pub[0] && pub[1] && pub[2] && pub[3] && full.inc[0] > 0 && full.dec[0] > 0 && full.dec[1] > 0 {
+	a2, b2 := a, b
+	for j := 0; j < 2 && part == 1; j++ {
+		a2 = vC39_pnMergeIf(pub[2+j], a2, d[2+j])
+		b2 = vC39_pnMergeIf(pub[j], b2, d[j])
+	}
+	if part == 1 {
+		vAssert(vC38_pnSnap(a2) == full && vC38_pnSnap(b2) == full, "the originators converge to the same state after exchanging deltas")
+	}
+	if pub[0] && pub[1] && pub[2] && full.inc[0] > 0 && full.dec[0] > 0 && full.dec[1] > 0 {
 		vCover("increments-and-decrements-on-both-nodes")
 	}
 	vCover("end")
@@ -222,6 +255,17 @@ func vC39_mvCopy(r *MVRegister) *MVRegister {
 }
 
 var vC39_emptyMV = NewMVRegister()
+
+func vC39_mvMergeIf(cond bool, cur, d *MVRegister) *MVRegister {
+	var c [7]*MVRegister
+	c[0] = cur
+	c[1] = cur.Merge(d).(*MVRegister)
+	k := 0
+	if cond {
+		k = 1
+	}
+	return vC38_mvPick(k, 2, c)
+}
 
 func vC39_mvUpdate(cur *MVRegister, node string) (*MVRegister, *MVRegister, bool) {
 	var c [7]*MVRegister
@@ -244,25 +288,25 @@ func vC39_mvregister() {
 	var pub [vC39_nd]bool
 	a, d[0], pub[0] = vC39_mvUpdate(a, "a")
 	b, d[2], pub[2] = vC39_mvUpdate(b, "b")
-	if vNondetBool("aSeesB") && pub[2] {
-		a = vC39_mvCopy(a.Merge(d[2]).(*MVRegister))
-	}
-	if vNondetBool("bSeesA") && pub[0] {
-		b = vC39_mvCopy(b.Merge(d[0]).(*MVRegister))
-	}
+	a = vC39_mvMergeIf(vNondetBool("aSeesB") && pub[2], a, d[2])
+	b = vC39_mvMergeIf(vNondetBool("bSeesA") && pub[0], b, d[0])
+	nd, part := vC39_nDeltas(), vCase("part")
 	a, d[1], pub[1] = vC39_mvUpdate(a, "a")
-	b, d[3], pub[3] = vC39_mvUpdate(b, "b")
+	d[3] = vC39_emptyMV
+	if nd == 4 {
+		b, d[3], pub[3] = vC39_mvUpdate(b, "b")
+	}
 	full := vC38_mvSnap(a.Merge(b).(*MVRegister))
-	sch := vC39_schedule()
+	sch := vC39_schedule(nd)
 	cur, present := vC39_emptyMV, false
-	for i := 0; i < vC39_deliveries; i++ {
+	for i := 0; i < nd+1 && part == 0; i++ {
 		var c [7]*MVRegister
 		var p [7]bool
-		for j := 0; j < vC39_nd; j++ {
+		for j := 0; j < nd; j++ {
 			c[j], p[j] = d[j], pub[j]
 		}
-		dl := vC38_mvPick(sch[i], vC39_nd, c)
-		if vC38_pickBool(sch[i], vC39_nd, p) {
+		dl := vC38_mvPick(sch[i], nd, c)
+		if vC38_pickBool(sch[i], nd, p) {
 			var n [7]*MVRegister
 			n[0] = dl
 			n[1] = cur.Merge(dl).(*MVRegister)
@@ -273,22 +317,234 @@ func vC39_mvregister() {
 			cur, present = vC38_mvPick(k, 2, n), true
 		}
 	}
-	vAssert(vC38_mvEq(vC38_mvSnap(cur), full), "a replica that applied every delta (any order, duplicates) equals the merge of the originators' full states")
-	a2, b2 := a, b
-	for j := 0; j < 2; j++ {
-		if pub[2+j] {
-			a2 = vC39_mvCopy(a2.Merge(d[2+j]).(*MVRegister))
-		}
-		if pub[j] {
-			b2 = vC39_mvCopy(b2.Merge(d[j]).(*MVRegister))
-		}
+	if part == 0 {
+		vAssert(vC38_mvEq(vC38_mvSnap(cur), full), "a replica that applied every delta (any order, duplicates) equals the merge of the originators' full states")
 	}
-	vAssert(vC38_mvEq(vC38_mvSnap(a2), full) && vC38_mvEq(vC38_mvSnap(b2), full), "the originators converge to the same state after exchanging deltas")
-	if full.n == 2 && pub[1] && pub[3] {
-		vCover("concurrent-values-after-two-writes-each")
+	a2, b2 := a, b
+	for j := 0; j < 2 && part == 1; j++ {
+		a2 = vC39_mvMergeIf(pub[2+j], a2, d[2+j])
+		b2 = vC39_mvMergeIf(pub[j], b2, d[j])
+	}
+	if part == 1 {
+		vAssert(vC38_mvEq(vC38_mvSnap(a2), full) && vC38_mvEq(vC38_mvSnap(b2), full), "the originators converge to the same state after exchanging deltas")
+	}
+	if full.n == 2 && pub[1] && pub[2] {
+		vCover("concurrent-values-after-several-writes")
 	}
 	if full.n == 1 {
 		vCover("single-surviving-value")
 	}
 	vCover("end")
 }
+
+// ---------------------------------------------------------------- ORSet
+
+var vC39_emptyOS = NewORSet()
+
+func vC39_osMergeIf(cond bool, cur, d *ORSet) *ORSet {
+	var c [7]*ORSet
+	c[0] = cur
+	c[1] = cur.Merge(d).(*ORSet)
+	k := 0
+	if cond {
+		k = 1
+	}
+	return vC38_osPick(k, 2, c)
+}
+
+// one or two operations out of {Add e1, Add e2, Remove e1, Remove e2}
+func vC39_osOps(cur *ORSet, node string) *ORSet {
+	u := cur
+	for stage := 0; stage < 2; stage++ {
+		var c [7]*ORSet
+		c[0] = u
+		c[1] = u.Add(node, vC38_elems[0])
+		c[2] = u.Add(node, vC38_elems[1])
+		c[3] = u.Remove(vC38_elems[0])
+		c[4] = u.Remove(vC38_elems[1])
+		u = vC38_osPick(vChoose("op", 5), 5, c)
+	}
+	return u
+}
+
+// one update at an originator, then delta extraction as in replicatorActor.handleUpdate; also returns the full state
+func vC39_osUpdate(cur *ORSet, node string) (*ORSet, *ORSet, bool) {
+	u := vC39_osOps(cur, node)
+	dd, published := u.Delta().(*ORSet)
+	if !published {
+		dd = vC39_emptyOS
+	}
+	d := vC38_osNorm(dd)
+	u.ResetDelta()
+	return u, d, published
+}
+
+// what==0: deltas are shipped; what==1: the full state after each update is shipped (anti-entropy, handleFullState)
+func vC39_osRun(what int) {
+	a, b := NewORSet(), NewORSet()
+	var d [vC39_nd]*ORSet
+	var pub [vC39_nd]bool
+	nd, part := vC39_nDeltas(), vCase("part")
+	a, d[0], pub[0] = vC39_osUpdate(a, "a")
+	if what == 1 {
+		d[0], pub[0] = vC38_osNorm(a), true
+	}
+	b, d[2], pub[2] = vC39_osUpdate(b, "b")
+	if what == 1 {
+		d[2], pub[2] = vC38_osNorm(b), true
+	}
+	a = vC39_osMergeIf(vNondetBool("aSeesB") && pub[2], a, d[2])
+	b = vC39_osMergeIf(vNondetBool("bSeesA") && pub[0], b, d[0])
+	a, d[1], pub[1] = vC39_osUpdate(a, "a")
+	if what == 1 {
+		d[1], pub[1] = vC38_osNorm(a), true
+	}
+	d[3] = vC39_emptyOS
+	if nd == 4 {
+		b, d[3], pub[3] = vC39_osUpdate(b, "b")
+		if what == 1 {
+			d[3], pub[3] = vC38_osNorm(b), true
+		}
+	}
+	full := vC38_osNorm(a.Merge(b).(*ORSet))
+	sch := vC39_schedule(nd)
+	cur, present := vC39_emptyOS, false
+	for i := 0; i < nd+1 && part == 0; i++ {
+		var c [7]*ORSet
+		var p [7]bool
+		for j := 0; j < nd; j++ {
+			c[j], p[j] = d[j], pub[j]
+		}
+		dl := vC38_osPick(sch[i], nd, c)
+		if vC38_pickBool(sch[i], nd, p) {
+			var n [7]*ORSet
+			n[0] = dl // key absent: the received value itself becomes the stored value
+			n[1] = cur.Merge(dl).(*ORSet)
+			k := 0
+			if present {
+				k = 1
+			}
+			cur, present = vC38_osPick(k, 2, n), true
+		}
+	}
+	if part == 0 {
+		vAssert(cur.Contains(vC38_elems[0]) == full.Contains(vC38_elems[0]) && cur.Contains(vC38_elems[1]) == full.Contains(vC38_elems[1]), "a replica that applied everything shipped (any order, duplicates) has the same elements as the merge of the originators' full states")
+		vAssert(vC38_osEq(cur, full), "a replica that applied everything shipped (any order, duplicates) has the same dots and clock as the merge of the originators' full states")
+	}
+	a2, b2 := a, b
+	for j := 0; j < 2 && part == 1; j++ {
+		a2 = vC39_osMergeIf(pub[2+j], a2, d[2+j])
+		b2 = vC39_osMergeIf(pub[j], b2, d[j])
+	}
+	if part == 1 {
+		vAssert(a2.Contains(vC38_elems[0]) == full.Contains(vC38_elems[0]) && a2.Contains(vC38_elems[1]) == full.Contains(vC38_elems[1]) && b2.Contains(vC38_elems[0]) == full.Contains(vC38_elems[0]) && b2.Contains(vC38_elems[1]) == full.Contains(vC38_elems[1]), "the originators hold the same elements after exchanging what they shipped, in order")
+		vAssert(vC38_osEq(a2, full) && vC38_osEq(b2, full), "the originators hold the same dots and clock after exchanging what they shipped, in order")
+	}
+	if full.Contains(vC38_elems[0]) && !full.Contains(vC38_elems[1]) && vC38_clockSnap(full.clock)[0] >= 2 && vC38_clockSnap(full.clock)[1] >= 1 {
+		vCover("adds-and-a-remove-on-two-nodes")
+	}
+	vCover("end")
+}
+
+func vC39_orset()           { vC39_osRun(0) }
+func vC39_orset_fullstate() { vC39_osRun(1) }
+
+// ---------------------------------------------------------------- ORMap (values: GCounter)
+
+var vC39_emptyOM = NewORMap()
+
+func vC39_omMergeIf(cond bool, cur, d *ORMap) *ORMap {
+	var c [7]*ORMap
+	c[0] = cur
+	c[1] = cur.Merge(d).(*ORMap)
+	k := 0
+	if cond {
+		k = 1
+	}
+	return vC38_omPick(k, 2, c)
+}
+
+// one or two operations out of {Set k1, Set k2, Remove k1, Remove k2}; Set stores a counter incremented by the node
+func vC39_omUpdate(cur *ORMap, node string, removes bool) (*ORMap, *ORMap, bool) {
+	u := cur
+	for stage := 0; stage < 2; stage++ {
+		amount := vNondetUint64("inc")
+		vAssume(amount < 1<<60)
+		val := NewGCounter().Increment(node, amount)
+		var c [7]*ORMap
+		c[0] = u
+		c[1] = u.Set(node, vC38_elems[0], val)
+		c[2] = u.Set(node, vC38_elems[1], val)
+		n := 3
+		if removes {
+			c[3] = u.Remove(vC38_elems[0])
+			c[4] = u.Remove(vC38_elems[1])
+			n = 5
+		}
+		u = vC38_omPick(vChoose("op", n), n, c)
+	}
+	dd, published := u.Delta().(*ORMap)
+	if !published {
+		dd = vC39_emptyOM
+	}
+	d := vC38_omNorm(dd)
+	u.ResetDelta()
+	return u, d, published
+}
+
+func vC39_omRun(removes bool) {
+	a, b := NewORMap(), NewORMap()
+	var d [vC39_nd]*ORMap
+	var pub [vC39_nd]bool
+	nd, part := vC39_nDeltas(), vCase("part")
+	a, d[0], pub[0] = vC39_omUpdate(a, "a", removes)
+	b, d[2], pub[2] = vC39_omUpdate(b, "b", removes)
+	a = vC39_omMergeIf(vNondetBool("aSeesB") && pub[2], a, d[2])
+	b = vC39_omMergeIf(vNondetBool("bSeesA") && pub[0], b, d[0])
+	a, d[1], pub[1] = vC39_omUpdate(a, "a", removes)
+	d[3] = vC39_emptyOM
+	if nd == 4 {
+		b, d[3], pub[3] = vC39_omUpdate(b, "b", removes)
+	}
+	full := vC38_omNorm(a.Merge(b).(*ORMap))
+	ofull := vC38_omObserve(full)
+	sch := vC39_schedule(nd)
+	cur, present := vC39_emptyOM, false
+	for i := 0; i < nd+1 && part == 0; i++ {
+		var c [7]*ORMap
+		var p [7]bool
+		for j := 0; j < nd; j++ {
+			c[j], p[j] = d[j], pub[j]
+		}
+		dl := vC38_omPick(sch[i], nd, c)
+		if vC38_pickBool(sch[i], nd, p) {
+			var n [7]*ORMap
+			n[0] = dl
+			n[1] = cur.Merge(dl).(*ORMap)
+			k := 0
+			if present {
+				k = 1
+			}
+			cur, present = vC38_omPick(k, 2, n), true
+		}
+	}
+	if part == 0 {
+		vAssert(vC38_omObserve(cur) == ofull, "a replica that applied every delta (any order, duplicates) has the same keys and values as the merge of the originators' full states")
+		vAssert(vC38_osEq(cur.keys, full.keys), "a replica that applied every delta (any order, duplicates) has the same key dots and clock as the merge of the originators' full states")
+	}
+	a2, b2 := a, b
+	for j := 0; j < 2 && part == 1; j++ {
+		a2 = vC39_omMergeIf(pub[2+j], a2, d[2+j])
+		b2 = vC39_omMergeIf(pub[j], b2, d[j])
+	}
+	if part == 1 {
+		vAssert(vC38_omObserve(a2) == ofull && vC38_omObserve(b2) == ofull, "the originators hold the same keys and values after exchanging deltas in order")
+	}
+	if ofull.has[0] && ofull.val[0][0] > 0 && ofull.val[0][1] > 0 {
+		vCover("key-written-on-both-nodes")
+	}
+	vCover("end")
+}
+
+func vC39_ormap()      { vC39_omRun(true) }
+func vC39_ormap_sets() { vC39_omRun(false) }
